@@ -30,7 +30,7 @@ def extract_ast():
     subprocess.run(["cargo", "build", "--release", "--target-dir", os.path.join(SCRATCH, "mtsym-target")], cwd=crate,
                    env=env, stdout=subprocess.PIPE, stderr=subprocess.STDOUT, check=True)
     files = [os.path.join(REPO, "src/parser/utils.rs"), os.path.join(REPO, "src/parser/field_extractor.rs"),
-             os.path.join(REPO, "src/parser/message_parser.rs")]
+             os.path.join(REPO, "src/parser/message_parser.rs"), os.path.join(REPO, "src/parser/generated.rs")]
     files += sorted(glob.glob(os.path.join(REPO, "src/messages/*.rs")))
     files += sorted(glob.glob(os.path.join(REPO, "src/fields/*.rs")))
     files += [os.path.join(REPO, "src/errors.rs"), os.path.join(REPO, "src/traits.rs"), os.path.join(REPO, "src/parser/swift_parser.rs"),
